@@ -40,8 +40,8 @@ NS = 'Pycel.Validate.'
 THEOREMS = [NS + t for t in (
     'C12_sound', 'C12_sound_mismatch', 'C12_sound_engine', 'C12_complete', 'C12_blame', 'C12_blame_total',
     'C12_failed_justified', 'C12_no_skip', 'C12_no_skip_reach', 'C12_terminates',
-    'closeVal_refl', 'closeVal_logical_number', 'closeVal_tol_zero', 'C12_sound_inst',
-    'C12_strict_tol_counterexample', 'C12_pinned_skip_counterexample')]
+    'closeVal_refl', 'closeVal_logical_number', 'closeVal_tol_zero', 'C12_strict_tol_counterexample',
+    'C12_sound_inst')]
 DESIGN_REF = 'DESIGN.md §7 C12'
 RULE = ('random DAG workbook files (C01 generator: 2-14 cells on one or two sheets, ranges, cross-sheet references; '
         'formulas =ref, &, +, SUM, COUNT, INDEX; up to two cells that raise: plugin ValueError / NotImplementedError / '
@@ -375,9 +375,10 @@ def oracles(results):
                 yield case, 'consistent file without raising cells, yet exceptions reported'
         for i, n in enumerate(nodes):
             if n[0] == 'X' and i in reach and not (pert and pert[0] == i and pert[1] == 'ftext'):
-                lst = xs if n[2] == 'exc' else ns
-                if i not in lst:
-                    yield case, f'raising cell {n[1]} is reachable from the outputs but not listed under its class'
+                # (the class is that of the first exception met: a precedent without a value may raise first)
+                if i not in xs and i not in ns:
+                    yield case, (f'raising cell {n[1]} is reachable from the outputs but listed neither under '
+                                 f'exceptions nor under not-implemented')
         for i in xs + ns:
             if not ({i} | clo[i]) & {k for k, n in enumerate(nodes) if n[0] == 'X'}:
                 yield case, f'{nodes[i][1]} reported under exceptions but no cell it reads raises'
@@ -401,8 +402,28 @@ def oracles(results):
                                      f'cell {nodes[c][1]} in dep_graph')
 
 
+def _code_close(a, b, tol):
+    """close_enough of the code on two numbers (used only to narrow the finding class)"""
+    import math
+    if tol is not None:
+        return abs(a - b) <= (1 + 1e-5) * tol
+    if a and b:
+        return math.isclose(a, b, rel_tol=1e-5)
+    return math.isclose(a, b, abs_tol=1e-8)
+
+
 def finding_key(case, impl_out, model_out):
     pert = case.get('pert')
+    if pert and impl_out and not impl_out.startswith('!'):
+        if pert[0] in parse_report(impl_out)[0]:
+            return None          # the altered cell IS named: whatever failed is not one of the known classes
+    if pert and pert[1] in ('logical', 'lognum'):
+        old = stored_of(case['nodes'])[case['nodes'][pert[0]][1]]
+        new = W._py(pert[2])
+        num = lambda v: isinstance(v, (bool, int, float))   # noqa
+        if (isinstance(old, bool) or isinstance(new, bool)) and num(old) and num(new) and \
+                _code_close(float(old), float(new), _tol(case)):
+            return 'logical.as-number'
     if pert and pert[1] == 'empty':
         return 'stored.emptytext'
     if pert and pert[1] == 'ftext':
@@ -543,7 +564,7 @@ def fixed_cases(thorough):
 def cases(tier, rng):
     thorough = tier == 'thorough'
     yield from fixed_cases(thorough)
-    n_wb = 260 if thorough else 22
+    n_wb = 150 if thorough else 22
     for k in range(n_wb):
         nodes = W.gen_workbook(rng, free_ranges=False)
         if not any(n[0] == 'F' for n in nodes):
